@@ -27,3 +27,123 @@ func verifLemmaZeroOneZero(p int) int { return OneToZero(ZeroToOne(p)) }
 //@   requires p != 0
 //@   ensures result == p
 func verifLemmaOneZeroOne(p int) int { return ZeroToOne(OneToZero(p)) }
+
+// ---- features as abstract values -------------------------------------------
+// Observer methods of features are modelled as pure functions of the receiver
+// value (assumption, listed in the evidence).
+
+//@ spec startOf(f Feature) int
+//@ spec endOf(f Feature) int
+//@ spec locOf(f Feature) Feature
+//@ spec oriOf(f Feature) Orientation
+
+//@ func (Range).Start
+//@   pure
+//@   ensures result == startOf(self)
+//@ func (Range).End
+//@   pure
+//@   ensures result == endOf(self)
+//@ func (Feature).Location
+//@   pure
+//@   ensures result == locOf(self)
+//@ func (Orienter).Orientation
+//@   pure
+//@   ensures result == oriOf(self)
+
+// Chains of locations are finite: depth counts the links to the first nil location.
+//@ spec depth(f Feature) int
+//@ axiom forall f Feature {depth(f)} :: depth(f) >= 0
+//@ axiom forall f Feature {depth(f), locOf(f)} :: locOf(f) != nil ==> depth(f) == depth(locOf(f)) + 1
+
+// Base position: sum of the starts along the chain; base feature: last feature of the chain.
+//@ spec sumStart(f Feature) int
+//@ axiom forall f Feature {sumStart(f), locOf(f)} :: sumStart(f) == startOf(f) + (locOf(f) != nil ? sumStart(locOf(f)) : 0)
+//@ spec baseOf(f Feature) Feature
+//@ axiom forall f Feature {baseOf(f), locOf(f)} :: baseOf(f) == (locOf(f) != nil ? baseOf(locOf(f)) : f)
+
+//@ func BasePositionOf
+//@   property C20
+//@   requires f != nil && depth(f) < 1000
+//@   ensures [position] result0 == position + sumStart(f)
+//@   ensures [base]     result1 == baseOf(f)
+//@   loop 1 invariant 0 <= n && f != nil && depth(f) + n == depth(old(f))
+//@   loop 1 invariant position + sumStart(f) == old(position) + sumStart(old(f))
+//@   loop 1 invariant baseOf(f) == baseOf(old(f))
+//@   loop 1 decreases 1000 - n
+
+// Additivity: mapping through a feature equals mapping through its location after adding the feature's start.
+//@ func verifLemmaBasePositionAdditive
+//@   property C20
+//@   lemma
+//@   requires f != nil && depth(f) < 1000 && locOf(f) != nil
+//@   ensures  p1 == p2 && b1 == b2
+func verifLemmaBasePositionAdditive(f Feature, p int) (p1 int, b1 Feature, p2 int, b2 Feature) {
+	p1, b1 = BasePositionOf(f, p)
+	p2, b2 = BasePositionOf(f.Location(), p+f.Start())
+	return
+}
+
+// ---- PositionWithin -------------------------------------------------------------
+//@ spec within(f Feature, ref Feature) bool
+//@ axiom forall f Feature, ref Feature {within(f, ref), locOf(f)} :: within(f, ref) == (f == ref || (locOf(f) != nil && within(locOf(f), ref)))
+//@ spec sumTo(f Feature, ref Feature) int
+//@ axiom forall f Feature, ref Feature {sumTo(f, ref), locOf(f)} :: sumTo(f, ref) == (f == ref ? 0 : startOf(f) + sumTo(locOf(f), ref))
+
+//@ func PositionWithin
+//@   property C20
+//@   requires f != nil && depth(f) < 1000
+//@   ensures [ok]   ok == within(f, ref)
+//@   ensures [pos]  ok ==> pos == position + sumTo(f, ref)
+//@   ensures [none] !ok ==> pos == 0
+//@   loop 1 invariant 0 <= n && f != nil && depth(f) + n == depth(old(f))
+//@   loop 1 invariant within(f, ref) == within(old(f), ref)
+//@   loop 1 invariant within(f, ref) ==> position + sumTo(f, ref) == old(position) + sumTo(old(f), ref)
+//@   loop 1 decreases 1000 - n
+
+//@ func verifLemmaPositionWithinAdditive
+//@   property C20
+//@   lemma
+//@   requires f != nil && depth(f) < 1000 && locOf(f) != nil && f != ref
+//@   ensures  ok1 == ok2 && (ok1 ==> p1 == p2)
+func verifLemmaPositionWithinAdditive(f, ref Feature, p int) (p1 int, ok1 bool, p2 int, ok2 bool) {
+	p1, ok1 = PositionWithin(f, ref, p)
+	p2, ok2 = PositionWithin(f.Location(), ref, p+f.Start())
+	return
+}
+
+// ---- orientations -------------------------------------------------------------
+// Orientation values are Reverse, NotOriented or Forward (assumption on implementations).
+//@ axiom forall f Feature {oriOf(f)} :: oriOf(f) == -1 || oriOf(f) == 0 || oriOf(f) == 1
+//@ spec orientable(f Feature) bool = implements(f, Orienter) && oriOf(f) != 0
+//@ spec prodOri(f Feature) Orientation
+//@ axiom forall f Feature {prodOri(f), locOf(f)} :: prodOri(f) == oriOf(f) * (orientable(locOf(f)) ? prodOri(locOf(f)) : 1)
+//@ axiom forall f Feature {prodOri(f)} :: prodOri(f) == -1 || prodOri(f) == 0 || prodOri(f) == 1
+//@ spec refB(f Feature) Feature
+//@ axiom forall f Feature {refB(f), locOf(f)} :: refB(f) == (orientable(locOf(f)) ? refB(locOf(f)) : (locOf(f) != nil ? locOf(f) : f))
+//@ spec refA(f Feature) Feature
+//@ axiom forall f Feature {refA(f), locOf(f)} :: refA(f) == (orientable(locOf(f)) ? locOf(f) : (locOf(f) == nil ? f : refA(locOf(f))))
+
+//@ func BaseOrientationOf
+//@   property C20
+//@   requires f != nil && depth(f) < 1000
+//@   ensures [ori]     orientable(f) ==> ori == prodOri(f) && ref == refB(f)
+//@   ensures [not-ori] !orientable(f) ==> ori == 0 && ref == refA(f)
+//@   loop 1 invariant 0 <= n && f != nil && depth(f) + n == depth(old(f))
+//@   loop 1 invariant !orientable(old(f)) && refA(f) == refA(old(f))
+//@   loop 1 decreases 1000 - n
+//@   loop 2 invariant 0 <= n && f != nil && depth(f) + n == depth(old(f))
+//@   loop 2 invariant orientable(old(f)) && orientable(f) && o == f
+//@   loop 2 invariant (ori == 1 || ori == -1) && ori * prodOri(f) == prodOri(old(f)) && refB(f) == refB(old(f))
+//@   loop 2 decreases 1000 - n
+
+// Multiplicativity: the base orientation of a feature is its own orientation times that of its (orientable) location.
+//@ func verifLemmaBaseOrientationMultiplicative
+//@   property C20
+//@   lemma
+//@   requires f != nil && depth(f) < 1000 && orientable(f) && orientable(locOf(f))
+//@   ensures  o1 == oriOf(f) * o2 && r1 == r2
+func verifLemmaBaseOrientationMultiplicative(f Feature) (o1 Orientation, r1 Feature, o2 Orientation, r2 Feature) {
+	o1, r1 = BaseOrientationOf(f)
+	o2, r2 = BaseOrientationOf(f.Location())
+	return
+}
